@@ -1441,6 +1441,55 @@ func (up4 *UP4) sendUpdate(all PacketForwardingRules, updated PacketForwardingRu
 		return err
 	}
 
+	// a FAR whose tunnel endpoint changed no longer uses its previous GTP tunnel peer
+	for _, f := range updated.fars {
+		if err := up4.removeStaleGTPTunnelPeers(f); err != nil {
+			return err
+		}
+	}
+
+	return nil
+}
+
+// removeStaleGTPTunnelPeers drops the reference of the given FAR from every GTP tunnel peer
+// other than the one the FAR currently points to, and removes peers left without users.
+func (up4 *UP4) removeStaleGTPTunnelPeers(far far) error {
+	up4.tunnelPeerMu.Lock()
+	defer up4.tunnelPeerMu.Unlock()
+
+	current := tunnelParams{
+		tunnelIP4Src: ip2int(up4.accessIP.IP),
+		tunnelIP4Dst: far.tunnelIP4Dst,
+		tunnelPort:   far.tunnelPort,
+	}
+	ref := tnlPeerReference{far.fseID, far.farID}
+
+	for params, tnlPeer := range up4.tunnelPeerIDs {
+		if params == current || !tnlPeer.usedBy.Contains(ref) {
+			continue
+		}
+
+		tnlPeer.usedBy.Remove(ref)
+
+		if tnlPeer.usedBy.Cardinality() != 0 {
+			continue
+		}
+
+		gtpTunnelPeerEntry, err := up4.p4RtTranslator.BuildGTPTunnelPeerTableEntry(tnlPeer.id, params)
+		if err != nil {
+			logger.PfcpLog.Errorln("failed to build GTP tunnel peer entry to remove")
+			return err
+		}
+
+		if err := up4.p4client.ApplyTableEntries(p4.Update_DELETE, gtpTunnelPeerEntry); err != nil {
+			// the entry is still in the switch: keep its ID allocated
+			logger.PfcpLog.Errorln("failed to remove stale GTP tunnel peer")
+			return err
+		}
+
+		up4.unsafeReleaseAllocatedGTPTunnelPeer(params)
+	}
+
 	return nil
 }
 
